@@ -318,6 +318,35 @@ def check_program(res: Res, p: dict, rng: random.Random) -> None:
                 d = blocks_equal([(a, b) for a, b in r0.blocks], r3.blocks) if r3.ok else f"twin rejected: {r3.err_kind}: {r3.err_text[:160]}"
                 res.violate("rename-changes-output", f"renaming the parameter {pname} of macro {mdef['n']} changes the output: {d}", dict(wit, twin_src=src3, renamed=pname))
                 return
+    # twin 1c: the spelling of names carries no meaning: every identifier of the program is replaced, consistently, by another
+    # valid identifier (register and size letters, hex-looking words, mnemonic- and directive-prefixed words, case variants,
+    # prefix families, one very long name); the scope structure is untouched, so bytes and label values must be the same
+    from vf.gen.twins import HOSTILE_NAMES, all_spellings, respell
+
+    if not any(st["k"] == "raw" for st, _, _ in walk(p["prog"])):
+        derived = set()
+        for f in (p.get("files") or {}):
+            b = f.replace("/", "_").replace(".", "_")
+            derived |= {b, b + "__size"}
+        names = [n for n in all_spellings(p["prog"]) if n not in derived and not n.startswith("DEF")]
+        pool = [h for h in HOSTILE_NAMES if h not in derived and h not in names]
+        rng.shuffle(pool)
+        ren = {n: (pool[i] if i < len(pool) else f"{n}_sp{i}") for i, n in enumerate(names)}
+        r4, src4, _ = run_ir(dict(p, prog=respell(p["prog"], ren)))
+        res.count("respelling_twins")
+        res.count("names_respelled", len(ren))
+        if not r4.ok or [(a, bytes(b)) for a, b in r4.blocks] != [(a, bytes(b)) for a, b in r0.blocks]:
+            d = blocks_equal([(a, b) for a, b in r0.blocks], r4.blocks) if r4.ok else f"twin rejected: {r4.err_kind}: {r4.err_text[:160]}"
+            res.violate("rename-changes-output", f"re-spelling every identifier consistently changes the output: {d}", dict(wit, twin_src=src4, renamed=ren))
+            return
+        inv = {}
+        for x, v in r0.labels:
+            inv.setdefault(".".join(ren.get(part, part) for part in x.split(".")), []).append(v)
+        want = sorted((x, v) for x, vs in inv.items() for v in vs)
+        if sorted(r4.labels) != want:
+            res.violate("rename-changes-output", f"re-spelling every identifier changes label values: {sorted(set(r4.labels) - set(want))[:4]} vs {sorted(set(want) - set(r4.labels))[:4]}",
+                        dict(wit, twin_src=src4, renamed=ren))
+            return
     # twin 2: unrelated definition inserted into another scope
     ins = insert_unrelated(p["prog"], rng)
     if ins is not None:
